@@ -43,10 +43,11 @@ type c16pCase struct {
 	S      []byte       `json:"s,omitempty"`
 	T      []byte       `json:"t,omitempty"`
 	Tag    string       `json:"tag,omitempty"`
+	Alias  bool         `json:"alias,omitempty"` // mul: the receiver IS the point argument (p.ScalarMult(k, p), v.VarTime…(a, v, b))
 }
 
 func (cs c16pCase) key() string {
-	return fmt.Sprintf("%s/%v/%v/%x/%d/%s/%x/%x", cs.Kind, cs.Regs, cs.Instrs, cs.Enc, cs.X, cs.Which, cs.S, cs.T)
+	return fmt.Sprintf("%s/%v/%v/%x/%d/%s/%x/%x/%v", cs.Kind, cs.Regs, cs.Instrs, cs.Enc, cs.X, cs.Which, cs.S, cs.T, cs.Alias)
 }
 
 func c16pFail(c *vf.Ctx, kind, class, what string, cs c16pCase, obs, req string) {
@@ -675,7 +676,16 @@ func execC16PMul(c *vf.Ctx, d *vf.Driver, cs c16pCase) {
 	}
 	c.Case(cs.key(), true)
 	c.Count("mul:" + cs.Which + ":" + cs.Tag)
+	if cs.Alias {
+		c.Count("mul:" + cs.Which + ":receiver-aliases-argument")
+	}
 	P := c16pPoint(cs.Regs[0])
+	recv := func() *verifhook.Ed448Point {
+		if cs.Alias {
+			return P
+		}
+		return new(verifhook.Ed448Point)
+	}
 	a, aOK := c16pAffine(cs.Regs[0])
 	var got *verifhook.Ed448Point
 	var args []vf.Wire
@@ -688,7 +698,13 @@ func execC16PMul(c *vf.Ctx, d *vf.Driver, cs c16pCase) {
 			args = []vf.Wire{vf.Bytes(cs.S), c16pWirePoint(cs.Regs[0])}
 			want = grpEdMul(sv, a)
 			inDomain = inDomain && cs.S[55] < 0x80
-			got = new(verifhook.Ed448Point).ScalarMult(grpScalar(cs.S), P)
+			got = recv().ScalarMult(grpScalar(cs.S), P)
+		case "scalarMultChain": // p = S·p; p = T·p, both in place (receiver aliases the argument twice)
+			want = grpEdMul(grpLE(cs.T), grpEdMul(sv, a))
+			inDomain = inDomain && cs.S[55] < 0x80 && cs.T[55] < 0x80
+			P.ScalarMult(grpScalar(cs.S), P)
+			got = P.ScalarMult(grpScalar(cs.T), P)
+			args = []vf.Wire{}
 		case "scalarBaseMult":
 			args = []vf.Wire{vf.Bytes(cs.S)}
 			want = grpEdMul(sv, grpEdBase())
@@ -699,13 +715,25 @@ func execC16PMul(c *vf.Ctx, d *vf.Driver, cs c16pCase) {
 			tv := grpLE(cs.T)
 			want = grpEdAdd(grpEdMul(sv, a), grpEdMul(tv, grpEdBase()))
 			inDomain = inDomain && sv.Cmp(grpTwo447) < 0 && tv.Cmp(grpTwo447) < 0
-			got = new(verifhook.Ed448Point).VarTimeDoubleScalarBaseMult(grpScalar(cs.S), P, grpScalar(cs.T))
+			got = recv().VarTimeDoubleScalarBaseMult(grpScalar(cs.S), P, grpScalar(cs.T))
 		}
 	})
-	if args == nil {
+	if args == nil && !panicked {
 		return
 	}
-	res, err := d.Call("ed448pt."+cs.Which, args, nil)
+	var res vf.Wire
+	var err error
+	if cs.Which == "scalarMultChain" {
+		// the functional model, applied twice
+		res, err = d.Call("ed448pt.scalarMult", []vf.Wire{vf.Bytes(cs.S), c16pWirePoint(cs.Regs[0])}, nil)
+		if err == nil {
+			if m1 := vf.AsOutcome(res); m1.Tag == "ok" {
+				res, err = d.Call("ed448pt.scalarMult", []vf.Wire{vf.Bytes(cs.T), m1.Val}, nil)
+			}
+		}
+	} else {
+		res, err = d.Call("ed448pt."+cs.Which, args, nil)
+	}
 	if err != nil {
 		c16pFail(c, "correspondence", "c16p-driver", err.Error(), cs, "", "")
 		return
@@ -886,13 +914,19 @@ func runC16P(c *vf.Ctx) {
 			execC16P(c, d, c16pCase{Kind: "spec", Regs: [][24]uint64{ra, rb}, S: s})
 		}
 		for i := 0; i < nMul && !c.Failed(); i++ {
-			for _, which := range []string{"scalarMult", "scalarBaseMult", "doubleScalarBaseMult"} {
-				a, t1 := c16pRefPoint(r)
+			for _, which := range []string{"scalarMult", "scalarBaseMult", "doubleScalarBaseMult", "scalarMultChain"} {
+				a, _ := c16pRefPoint(r)
 				rep, _ := c16pRepresent(r, a)
 				s, t2 := c16pMulScalars(r)
 				t, _ := c16pMulScalars(r)
-				cs := c16pCase{Kind: "mul", Which: which, Regs: [][24]uint64{rep}, S: s, T: t, Tag: t2}
-				_ = t1
+				cs := c16pCase{Kind: "mul", Which: which, Regs: [][24]uint64{rep}, S: s, T: t, Tag: t2, Alias: (i+w)%2 == 0}
+				if which == "scalarMultChain" { // p = 5·p; p = 3·p style, small and random scalars
+					if r.Bool() {
+						cs.S, cs.T, cs.Tag = grpToLE56(big.NewInt(5)), grpToLE56(big.NewInt(3)), "5,3"
+					} else {
+						cs.S, cs.T, cs.Tag = grpRandEdScalar(r), grpRandEdScalar(r), "random"
+					}
+				}
 				execC16P(c, d, cs)
 			}
 		}
